@@ -15,7 +15,10 @@ RULE = ('(1) operation histories over set_similarity/get_similarity/len/items: e
         'other control/separator characters: to_csv must reject exactly the dictionaries the model rejects (table of forbidden '
         'characters extracted from the running code and passed to the model; TableOk evaluated by the model), otherwise from_csv(to_csv) '
         'must return the same similarities (float.hex) and metadata for .csv and .csv.gz; a caller-supplied `created` entry may sit anywhere '
-        'in the dict, values may begin / end with blanks, and the re-read container is extended and round-tripped a second time. Non-trivial: the history overwrites a pair, '
+        'in the dict, values may begin / end with blanks, and the re-read container is extended and round-tripped a second time; term ids that '
+        'stress the text format (a leading #, commas, quotes, LF / CR / CRLF inside an id, blanks, BOM, the header words, empty); for every '
+        'written file its physical lines are also given to the framing model (sim.unframe) whose output, parsed with the csv module, must equal '
+        'what from_csv returns. Non-trivial: the history overwrites a pair, '
         'uses both key orders, a self pair or a rejected value / the metadata has >= 2 entries or a special character.')
 
 THEOREM = 'Hpv.Props.C15.*'
@@ -131,6 +134,43 @@ def csv_round_trip(c, suffix, want_container=False):
         os.rmdir(d)
 
 
+def frame_tie(ctx, c, suffix, case):
+    """the framing model (Hpv.Sim.unframe / parseMeta) against from_csv on the file to_csv wrote: the physical lines of the file,
+    read the way the library reads them (newlines untranslated), go to the model; what the model hands to the csv reader is
+    parsed with the standard csv module and must give the container from_csv returns; so must the metadata the model decodes"""
+    import csv
+    d = tempfile.mkdtemp(prefix='verif-c15-')
+    path = os.path.join(d, 'sim' + suffix)
+    try:
+        c.to_csv(path)
+        opener = gzip.open if suffix.endswith('.gz') else open
+        with opener(path, 'rt', encoding='utf-8', newline='') as h:
+            lines = list(h)
+        rep = run_driver([{'op': 'sim.unframe', 'lines': lines}])[0]
+        try:
+            r = _cls().from_csv(path)
+            impl = {'items': sorted((a, b, float(v).hex()) for a, b, v in r.items()), 'meta': dict(r.metadata)}
+        except Exception as e:  # noqa
+            impl = f'raises {type(e).__name__}: {e}'
+        if 'error' in rep:
+            model = rep
+        else:
+            want = _cls()()
+            for rec in csv.DictReader(rep['body']):
+                want.set_similarity(rec['term_a'], rec['term_b'], float(rec['ic_mica']))
+            model = {'items': sorted((a, b, float(v).hex()) for a, b, v in want.items()),
+                     'meta': dict(rep['meta']['ok']) if 'ok' in rep['meta'] else 'ValueError'}
+        ctx.count('frame.' + ('agree' if impl == model else 'differ'))
+        if impl != model:
+            ctx.violation('frame', {'case': case, 'file_lines': lines[:12], 'impl': impl if isinstance(impl, str) else {k: (v[:5] if k == 'items' else v) for k, v in impl.items()},
+                                    'model': model if 'error' in model else {k: (v[:5] if k == 'items' else v) for k, v in model.items()},
+                                    'theorem': 'Hpv.Props.C15.file_frame_round_trip'})
+    finally:
+        for f in os.listdir(d):
+            os.remove(os.path.join(d, f))
+        os.rmdir(d)
+
+
 def evaluate_meta(ctx, cases, forb, stream):
     """cases: list of (meta list of (k, v), ops)"""
     reqs = [{'op': 'meta.codec', 'forb': forb, 'meta': [list(kv) for kv in meta]} for meta, _ in cases]
@@ -171,6 +211,7 @@ def evaluate_meta(ctx, cases, forb, stream):
                                                      'impl': {'items': got_items[:5], 'meta': got_meta}, 'expected': {'items': want_items[:5], 'meta': want_meta},
                                                      'theorem': 'Hpv.Props.C15.meta_round_trip / rows_round_trip'})
                 continue
+            frame_tie(ctx, c, suffix, {'kind': 'meta', 'meta': [list(x) for x in meta], 'ops': [list(o) for o in ops], 'suffix': suffix})
             # second generation: the re-read container (whose metadata already holds `created`, so new entries come after it)
             # gets the case's entries again under fresh keys and one more pair, is written and read once more
             try:
@@ -275,6 +316,16 @@ def run(ctx):
             meta.insert(rng.randrange(0, len(meta) + 1), ('created', 'before'))
         ops = [('set', rng.choice(K), rng.choice(K), rng.choice([v for v in V if v >= 0])) for _ in range(rng.randrange(0, 8))]
         cases.append((meta, ops))
+    # keys that stress the text format: separators, quotes, line breaks inside a (quoted) field, a leading `#`, the header's own words,
+    # blanks at either end, a BOM, non-ASCII; alone, next to ordinary keys and against each other
+    XK = ['#X:1', '#', '#k=v', 'HP:1\n#x', 'HP:1\r\n#x', 'A\rB:1', 'A\r\nB:1', 'HP:1\n', '\nHP:1', 'H,P:1', 'HP:"2', '"', '""', "HP:'1", ' HP:1', 'HP:2 ', '',
+          'term_a', 'ic_mica', '\ufeffHP:1', 'HP:\xe9', 'HP:1\x85', 'HP:1\u2028', 'HP:1;2', 'k=v', '\U0001F600:1', 'HP:1\t2', '\\', 'HP:1\x0b', 'HP:1\x1c2']
+    for i, xk in enumerate(XK):
+        cases.append(([('k', 'v')], [('set', xk, 'HP:0000001', 1.5), ('set', 'A:1', 'B:1', 0.25)]))
+        cases.append(([], [('set', 'A:1', 'B:1', 0.25), ('set', 'ZZ:9', xk, 2.0), ('set', xk, xk, 0.5), ('set', xk, XK[(i + 7) % len(XK)], 3.0)]))
+    for _ in range(200 if thorough else 40):
+        ops = [('set', rng.choice(XK + K), rng.choice(XK + K), rng.choice([0.0, 0.5, 1 / 3, 5e-324, 1e300])) for _ in range(rng.randrange(1, 7))]
+        cases.append(([('k', 'v')] if rng.random() < 0.5 else [], ops))
     for tail in (' ', '\t', '  ', '\x0b', '\x0c', '\x1c', '\x85', '\u2028', '\xa0'):      # blanks at either end of the last / only value
         cases.append(([('created', 'x'), ('k', 'v' + tail)], [('set', 'A:1', 'B:1', 1.0)]))
         cases.append(([('k', tail + 'v'), ('created', 'x')], []))
